@@ -34,6 +34,10 @@ pub struct Case {
     /// fits" and n x 1000 the edge of "x_i fits"
     #[serde(default)]
     pub boundary: Option<u16>,
+    /// a coincidence: every asset holds the same number of raw units although the decimals differ
+    /// (kept only while that is a skew of at most 1000:1)
+    #[serde(default)]
+    pub equal_raw: bool,
 }
 
 pub fn dec_mix() -> impl Strategy<Value = Vec<u8>> {
@@ -60,9 +64,10 @@ pub fn case_strat() -> impl Strategy<Value = Case> {
         0u8..8,
         valid_fees(),
         proptest::option::weighted(0.05, prop_oneof![3 => 700u16..=1300, 1 => 300u16..=4300]),
+        proptest::bool::weighted(0.04),
     )
-        .prop_map(|(amp, decimals, size_exp, mant, share, oi, ai, offer_ppm, jitter, fees, boundary)| Case {
-            amp, decimals, size_exp, mant, share, oi, ai, offer_ppm, jitter, fees, boundary,
+        .prop_map(|(amp, decimals, size_exp, mant, share, oi, ai, offer_ppm, jitter, fees, boundary, equal_raw)| Case {
+            amp, decimals, size_exp, mant, share, oi, ai, offer_ppm, jitter, fees, boundary, equal_raw,
         })
 }
 
@@ -74,7 +79,20 @@ pub struct State {
 
 /// ordinary states only (the edge class is for the engines written for 128-bit-edge amounts)
 pub fn build_state(c: &Case) -> Option<State> {
-    build_state_edge(&Case { boundary: None, ..c.clone() })
+    let mut s = build_state_edge(&Case { boundary: None, ..c.clone() })?;
+    if c.equal_raw {
+        let (dmin, dmax) = (*c.decimals.iter().min().unwrap(), *c.decimals.iter().max().unwrap());
+        if dmax - dmin <= 3 {
+            let v = s.amounts[0];
+            for a in s.amounts.iter_mut() {
+                *a = v;
+            }
+            for (coin, a) in s.info.assets.iter_mut().zip(s.amounts.iter()) {
+                coin.amount = Uint128::new(*a);
+            }
+        }
+    }
+    Some(s)
 }
 
 pub fn build_state_edge(c: &Case) -> Option<State> {
